@@ -3,12 +3,13 @@
 (* pattern of a concrete series; winsorize / Spearman: enumeration.            *)
 EXTENDS Composite, Json
 
-CONSTANTS HLMaxLen, SpLen, ValSet, Kinds, RampLens
+CONSTANTS HLMaxLen, SpLen, ValSet, Kinds, RampLens, ShiftHalves
 ElemDef == ValSet \cup {NULL}
 
 VARIABLES kind, s, t, mp, len, above, pc, n, last_n, i
 hl == INSTANCE HalfLife WITH MaxLen <- HLMaxLen
 vars == <<kind, s, t, mp, len, above, pc, n, last_n, i>>
+HLKinds == {"half_life", "half_life_ramp", "half_life_shift"}
 
 Init ==
     /\ kind \in Kinds
@@ -20,24 +21,36 @@ Init ==
        \/ /\ kind = "half_life_ramp"
           /\ \E L \in RampLens : s \in {[j \in 1..L |-> IF j \in M THEN NULL ELSE j] : M \in SUBSET (1..L)}
           /\ t = <<>> /\ mp \in {1, 2}
+       \* a level shift: m values at one level, then m at another - the lag-k autocorrelation is
+       \* exactly 1 - k/m, so it meets 1/2 EXACTLY at k = m/2 (a tie the bisection has to decide)
+       \/ /\ kind = "half_life_shift"
+          /\ \E m \in ShiftHalves, lv \in {<<0, 1>>, <<1, 0>>, <<0 - 1, 1>>} :
+                 s = [j \in 1..(2 * m) |-> IF j <= m THEN lv[1] ELSE lv[2]]
+          /\ t = <<>> /\ mp \in {1, 2}
        \/ /\ kind = "winsor"
           /\ s \in Seqs(ElemDef, MaxLen) /\ t = <<>> /\ mp = 0
        \/ /\ kind = "spearman"
           /\ s \in Seqs(ElemDef, SpLen) /\ t \in [1..Len(s) -> ElemDef]
           /\ mp \in {-1, 0, 3}
     /\ len = Len(s)
-    /\ above = IF kind \in {"half_life", "half_life_ramp"}
-               THEN [k \in 1..(Len(s) - 1) |-> AboveHalf(s, IF mp = -1 THEN Len(s) \div 2 ELSE mp, k)]
-               ELSE [k \in 1..(Len(s) - 1) |-> FALSE]
-    /\ pc = IF kind \in {"half_life", "half_life_ramp"} /\ Len(s) > 0 THEN "dbl" ELSE "done"
+    \* where the autocorrelation is EXACTLY 1/2 the floating-point value may come out on either side:
+    \* both resolutions are behaviours; the replay follows the one the library's own autocorrelation
+    \* (vcorr_pearson of the series and its lag) takes
+    /\ above \in IF kind \in HLKinds
+                 THEN LET m0 == IF mp = -1 THEN Len(s) \div 2 ELSE mp
+                          tieset == {k \in 1..(Len(s) - 1) : TieAtHalf(s, m0, k)}
+                      IN  {[k \in 1..(Len(s) - 1) |-> IF k \in tieset THEN k \in up ELSE AboveHalf(s, m0, k)] :
+                              up \in SUBSET tieset}
+                 ELSE {[k \in 1..(Len(s) - 1) |-> FALSE]}
+    /\ pc = IF kind \in HLKinds /\ Len(s) > 0 THEN "dbl" ELSE "done"
     /\ n = 0 /\ last_n = 0 /\ i = 0
 
 Next == hl!Next /\ UNCHANGED <<kind, s, t, mp>>
 Spec == Init /\ [][Next]_vars /\ WF_vars(Next)
 
 NoUnderflow == hl!NoUnderflow
-InRange     == kind \in {"half_life", "half_life_ramp"} => hl!InRange
-ResultLaw   == kind \in {"half_life", "half_life_ramp"} => hl!ResultLaw
+InRange     == kind \in HLKinds => hl!InRange
+ResultLaw   == kind \in HLKinds => hl!ResultLaw
 Terminates  == hl!Terminates
 
 SpearmanLaw == (kind = "spearman" /\ mp = -1) => SpearmanMonotoneInvariant(s, t) /\ SpearmanMonotoneInvariant(t, s)
@@ -47,12 +60,13 @@ Ks == {0, 1, 3}
 EmitComposite ==
     pc = "done" =>
       PrintT(<<"REPLAY", ToJson(
-        CASE kind \in {"half_life", "half_life_ramp"} ->
+        CASE kind \in HLKinds ->
                [op |-> "half_life", s |-> s, mp |-> mp,
                 \* the exact lag is required of monotone patterns only; otherwise the range 0..len-1
-                want |-> IF Len(s) >= 2 /\ hl!Monotone
-                            /\ ~\E k \in 1..(Len(s) - 1) : TieAtHalf(s, IF mp = -1 THEN Len(s) \div 2 ELSE mp, k)
-                         THEN n ELSE -1,
+                want |-> IF Len(s) >= 2 /\ hl!Monotone THEN n ELSE -1,
+                \* lags whose autocorrelation is exactly 1/2, and how THIS behaviour resolves them
+                ties |-> SetToSeq({k \in 1..(Len(s) - 1) : TieAtHalf(s, IF mp = -1 THEN Len(s) \div 2 ELSE mp, k)}),
+                above |-> [k \in 1..(Len(s) - 1) |-> IF above[k] THEN 1 ELSE 0],
                 machine |-> n]
           [] kind = "winsor" ->
                [op |-> "winsor", s |-> s,
